@@ -89,16 +89,23 @@ def ensure_gopherjs():
     return out
 
 
-def overlay_json():
-    """map every file under harness/go/repo_overlay/<rel> to the virtual path /repo/<rel>"""
+def overlay_json(name=None):
+    """map files under harness/go/repo_overlay/<rel> to the virtual path <REPO>/<rel>. With a harness
+    name only that property's files are mapped (compiler/verifharness/<name>*/..., export_<name>_verif.go,
+    *_<name>_*.go), so one property's overlay files can never break another property's build."""
     repl = {}
     for root, _, files in os.walk(OVERLAY_SRC):
         for f in files:
             src = os.path.join(root, f)
             rel = os.path.relpath(src, OVERLAY_SRC)
+            if name is not None:
+                pid = name[:3]   # harness names start with the property id: c13, c13prog, ...
+                own = ("/verifharness/%s" % pid) in ("/" + rel) or ("_%s_" % pid) in f or f.startswith(pid + "_")
+                if not own:
+                    continue
             repl[os.path.join(REPO, rel)] = src
     os.makedirs(WORK, exist_ok=True)
-    path = os.path.join(WORK, "overlay.json")
+    path = os.path.join(WORK, "overlay_%s.json" % (name or "all"))
     data = json.dumps({"Replace": repl}, indent=1, sort_keys=True)
     if not os.path.exists(path) or open(path).read() != data:
         with open(path + ".tmp", "w") as f:
@@ -113,9 +120,9 @@ def ensure_go_harness(name, pkg=None):
     out = os.path.join(BIN, "h_" + name)
     pkg = pkg or "./compiler/verifharness/" + name
     with Lock("gobuild"):
-        ov = overlay_json()
+        ov = overlay_json(name)
         rc, log = sh(["go", "build", "-tags", "verif", "-overlay", ov, "-o", out, pkg], cwd=REPO, env=goenv(),
-                     timeout=900)
+                     timeout=1800)
     if rc != 0:
         raise BuildError("go build of overlay harness %s failed:\n%s" % (name, log))
     return out
@@ -125,7 +132,7 @@ class BuildError(Exception):
     pass
 
 
-def gopherjs_build(srcdir, out="out.js", minify=False, tags=None, timeout=120, extra=None):
+def gopherjs_build(srcdir, out="out.js", minify=False, tags=None, timeout=600, extra=None):
     """compile the package in srcdir (needs a go.mod) with the real compiler; returns (rc, log)"""
     cmd = [os.path.join(BIN, "gopherjs"), "build", "-o", out]
     if minify:
@@ -149,7 +156,7 @@ def write_go_program(d, files, module="verifprog"):
             f.write(text)
 
 
-def run_node(jsfile, args=(), cwd=None, timeout=60, inp=None):
+def run_node(jsfile, args=(), cwd=None, timeout=300, inp=None):
     return sh2(["node", "--stack-size=4000", jsfile] + list(args), cwd=cwd, timeout=timeout, inp=inp)
 
 
@@ -184,11 +191,18 @@ def write_if_changed(path, text):
 
 
 def sync_alt_coq():
-    """alt mode: mirror /verif/coq (sources and compiled files, mtimes kept) into the alt work dir"""
+    """alt mode: mirror /verif/coq into the alt work dir. The first sync copies sources AND compiled files
+    (mtimes kept, so make is incremental); later syncs copy sources only, so that files rebuilt in the alt
+    dir against its own regenerated Gen tables are never overwritten by the main tree's .vo files."""
     if ALT:
         os.makedirs(COQ, exist_ok=True)
-        sh(["rsync", "-a", "--exclude", "Gen/", "--exclude", "_CoqProject", "--exclude", "Makefile*", "--exclude", ".Makefile.d",
-            COQ_SRC + "/", COQ + "/"])
+        marker = os.path.join(COQ, ".synced")
+        cmd = ["rsync", "-a", "--exclude", "Gen/", "--exclude", "_CoqProject", "--exclude", "Makefile*", "--exclude", ".Makefile.d",
+               "--exclude", ".synced"]
+        if os.path.exists(marker):
+            cmd += ["--exclude", "*.vo", "--exclude", "*.vok", "--exclude", "*.vos", "--exclude", "*.glob", "--exclude", "*.aux"]
+        sh(cmd + [COQ_SRC + "/", COQ + "/"])
+        open(marker, "w").close()
 
 
 def coq_project():
